@@ -372,12 +372,18 @@ def execute(src):
 
 
 PACKAGE = {
-    'shop/__init__.py': "from .config import RATE\nfrom ..settings import CURRENCY\nfrom . import pricing\nfrom .pricing import total as compute_total\n",
-    'shop/config.py': "RATE = 0.07\nCURRENCY = 'local'\n",
-    'shop/pricing.py': "from .config import RATE\nfrom ..settings import RATE as OUTER_RATE\nfrom .. import settings\ndef total(amount):\n    return round(amount * (1 + RATE), 2), OUTER_RATE, settings.CURRENCY\n",
-    'settings.py': "RATE = 0.2\nCURRENCY = 'EUR'\n",
+    # adjacent from-imports of the same module name at different relative levels (and absolute), and `from . import` / `from .. import`
+    'shop/__init__.py': "from .config import RATE\nfrom ..config import CURRENCY\nfrom . import pricing\nfrom .pricing import total as compute_total\n",
+    'shop/config.py': "RATE = 0.07\nCURRENCY = 'local'\nNAME = 'inner'\n",
+    'shop/pricing.py': ("from .config import RATE\nfrom ..config import RATE as OUTER_RATE\nfrom config import RATE as ABS_RATE\nfrom . import config as inner\nfrom .. import config as outer\n"
+                        "from .. import settings\nfrom ..settings import CURRENCY\nfrom .config import CURRENCY as LOCAL\n"
+                        "def total(amount):\n    return round(amount * (1 + RATE), 2), OUTER_RATE, ABS_RATE, inner.NAME, outer.NAME, settings.CURRENCY, CURRENCY, LOCAL\n"),
+    'config.py': "RATE = 0.2\nCURRENCY = 'EUR'\nNAME = 'outer'\n",
+    'settings.py': "RATE = 0.3\nCURRENCY = 'USD'\n",
     '__init__.py': "",
-    'run.py': "import sys, os\nsys.path.insert(0, os.path.dirname(os.path.dirname(os.path.abspath(__file__))))\nimport importlib\npkg = importlib.import_module(os.path.basename(os.path.dirname(os.path.abspath(__file__))))\nshop = importlib.import_module(pkg.__name__ + '.shop')\nprint(shop.compute_total(14), shop.RATE, shop.CURRENCY)\n",
+    'run.py': ("import sys, os\nhere = os.path.dirname(os.path.abspath(__file__))\nsys.path.insert(0, os.path.dirname(here))\nsys.path.insert(0, os.path.join(here, 'abs'))\nimport importlib\n"
+               "pkg = importlib.import_module(os.path.basename(here))\nshop = importlib.import_module(pkg.__name__ + '.shop')\nprint(shop.compute_total(14), shop.RATE, shop.CURRENCY)\n"),
+    'abs/config.py': "RATE = 0.5\n",
 }
 
 
